@@ -107,9 +107,12 @@ class Conn:
         self.alloc = hirq.Body(facts, facts.hir[self.alloc_path])
 
     def is_idset_place(self, e):
-        """e is `<guard>.1` (possibly through refs/derefs) where guard locks the ID table."""
+        """e denotes the in-use set: `<guard>.1` where guard locks the ID table, or any place of the set's type (there is one
+        HashSet<RequestId> in the program: a destructured `ref mut in_use` is the same set)."""
         e = peel(e)
-        return e['k'] == 'Field' and e['name'] == '1' and is_idguard(peel(e['e']).get('ty'))
+        if e['k'] == 'Field' and e['name'] == '1' and is_idguard(peel(e['e']).get('ty')):
+            return True
+        return hirq.strip_refs(e.get('ty') or '') == T_IDSET
 
     def is_counter_place(self, e):
         e = peel(e)
